@@ -216,6 +216,18 @@ EXTRA3 = {   # round 9 (DESIGN.md section 0g)
     "C19": "Round 9: I1 lets immutable-typed constructor parameters through; class / static methods are not session entries.",
 }
 
+EXTRA5 = {   # round 11 (DESIGN.md section 0i)
+    "C01": "Round 11: the Control envelope may be opened by the decoder or by every caller (moved into the nonterminal; call sites must agree); a read handed an undecided peeked header under a test that is not a tag test is an analysis error.",
+    "C05": "Round 11: a constant-table lookup `T[k]` is read as its element expression under `assert 0 <= k < N`, discharged from k's interval; `v = x.find(lit)` yields the -1-or-valid-index fact; a notification kept in a module-level name is not followed (exit 2).",
+    "C07": "Round 11: S1 / S3 read masks and shifts through a precomputed identifier-octet table.",
+    "C13": "Round 11: J6 accepts a raw value cut in two steps; comparison flags bound once are read as the comparison.",
+    "C15": "Round 11: `\\d` / `\\s` / `\\w` of a str pattern without re.ASCII are modelled exactly from the interpreter's character tables (F4 reports a non-ASCII digit accepted as an arc).",
+    "C16": "Round 11: U1 judges a hand-written scanning un-escaper by whether the searched text is rebuilt inside the loop; an escaping callback that is a table lookup is not read (exit 2).",
+    "C17": "Round 11: U1 as in C16.",
+    "C18": "Round 11: E2 restart-ahead form: a `while idx != -1` loop driven by `text.find(sub, start)` must restart strictly after the previous hit on every path (schema.py and _filter.py).",
+    "C19": "Round 11: named immutable value objects (NamedTuple constants, tuples of constants, constant tables) and immutable results kept at module level are not shared state; a module-level writer / cache object still is.",
+}
+
 EXTRA4 = {   # round 10 (DESIGN.md section 0h)
     "C01": "Round 10: W25 value classes compare by their fields; W26 overrides keep the parameters callers pass by keyword; D5 every dispatch-table key is the tag number of exactly one message class.",
     "C03": "Round 10: enum.auto() is numbered from the member before it, so B12 compares auto-numbered result codes with the RFC's.",
@@ -274,6 +286,8 @@ def main():
             c["text"] = c["text"] + " " + EXTRA3[pid]
         if pid in EXTRA4:
             c["text"] = c["text"] + " " + EXTRA4[pid]
+        if pid in EXTRA5:
+            c["text"] = c["text"] + " " + EXTRA5[pid]
         checks.append({
             "property_id": pid,
             "quick_cmd": f"/venv/bin/python sa/run.py {pid} --tier quick",
@@ -312,7 +326,7 @@ def main():
                  "variants it is recorded to report, behaviour-preserving variants it must stay silent on), each applied to a scratch copy of the current working "
                  "tree; that self-test is written to the evidence and never changes the verdict. 18 genuine defects were repaired by fix: commits in /repo "
                  "(6de8880..7a61bad; F15 was found by the C17 typestate analysis, F16 after Engine C's codec catalogue was corrected) and 2 are known findings "
-                 "pinned by tests; see /verif/known_findings.txt and DESIGN.md sections 0-0h, 2 and 10. " + seed_summary(),
+                 "pinned by tests; see /verif/known_findings.txt and DESIGN.md sections 0-0i, 2 and 10. " + seed_summary(),
     }
     with open(os.path.join(VERIF, "MANIFEST.json"), "w") as f:
         json.dump(man, f, indent=1)
